@@ -28,6 +28,14 @@ CLAIMS = {
          "TLC trace validation against TLA+ transcriptions of RFC 5869 / 8018 / 7914"),
  "C11": ("Argon2d/i/id tags over (type, version, t, p, m incl. non-multiples of 4p and a segment longer than 128, tag lengths crossing 64, key/aad presence, both entry points): TLC recomputes RFC 9106 from Argon2.tla (H0, H', indexing position machine, G)", "5 C11",
          "TLC trace validation against a TLA+ transcription of RFC 9106"),
+ "C12": ("X25519 on scalars {seeded, zero, all-ones, single-bit} x u {seeded, boundary values around 0, p, 2^255, 2^256, small-order u, top bit set}, fixed-base vs u=9, both sides of an exchange, and the RFC 7748 iteration chain link by link: TLC recomputes RFC 7748 on a 13-bit-limb bignum field (Fe25519.tla); the ladder's control skeleton is model-checked against the affine group law for every scalar and point of a toy Montgomery curve (Ladder.tla)", "5 C12",
+         "TLC trace validation against RFC 7748 in TLA+ + exhaustive TLC model checking of the Montgomery ladder skeleton on a toy curve"),
+ "C13": ("keypair layout, extended_to_public, signature, signature_extended (= the seed's signature), exchange over seeds incl. ones selected for the top-digit carry of the fixed-base recoding and messages straddling SHA-512 block boundaries or selected for the rare branch of the mod-L reduction: TLC recomputes RFC 8032 (SHA-512, mod L, Edwards double-and-add) from Ed25519.tla; the radix-16 recoding is model-checked for every 11-bit scalar", "5 C13",
+         "TLC trace validation against RFC 8032 in TLA+ + TLC model checking of the scalar recoding"),
+ "C14": ("verify verdicts on honest triples and an enumerated adversarial set (bit flips, S+kL, non-canonical S shapes under the neutral key, small-order / non-canonical / non-point A and R, zero key, random): the verdict decodable(A) /\\ A#0 /\\ S<L /\\ Encode(S*B - h*A) = R is computed by TLC for every triple; the sliding-window recoding is model-checked", "5 C14",
+         "TLC trace validation of accept/reject verdicts against the RFC 8032 verification equation in TLA+"),
+ "C15": ("field programs generated by TLC under the operand discipline (FeProg.tla) with the value recomputed after every step; wide reduction, canonical decoding, fixed-base and double-scalar multiplication, group law through every public representation, encode/decode incl. small-order and non-canonical encodings: all against Fe25519.tla / Ed25519.tla", "5 C15",
+         "TLC-generated field-expression programs replayed on the implementation + TLC trace validation against bignum field/scalar/group specifications"),
 }
 NA = {}
 def main():
